@@ -530,6 +530,38 @@ static void cb_litmus(FILE *lf, int op)
 	fprintf(lf, "{\"k\":\"cb\",\"impl\":\"%s\",\"op\":\"%s\",\"done\":%d,\"final\":%ld,\"expect\":%ld}\n", IMPL, sbname[op], it >= 0, cb_counter, 2 * CB_N);
 }
 
+/* ------------------------------------------------------------------ plain store followed by a void read-modify-write
+ * "g = init; uatomic_op(&g, d);" on a static and on an automatic variable, in one optimised function: the operation must act on the
+ * value the plain C assignment stored (the asm must declare its memory operand read-write; an output-only operand lets the compiler
+ * delete the assignment as a dead store).  One record per op x width x storage class, judged by Uatomic!Sem. */
+#define PS_INIT 0x5a
+#define PS_D 0x0d
+#define PS_FN(NAME, T, OPCALL_S, OPCALL_L) \
+	static T NAME##_g; \
+	static __attribute__((noinline)) uint64_t NAME##_s(void) { NAME##_g = (T) PS_INIT; OPCALL_S; return (uint64_t) NAME##_g; } \
+	static __attribute__((noinline)) uint64_t NAME##_l(void) { T l = (T) PS_INIT; OPCALL_L; return (uint64_t) l; }
+#define PS_ALL(T, W) \
+	PS_FN(ps_add_##W, T, uatomic_add(&ps_add_##W##_g, PS_D), uatomic_add(&l, PS_D)) \
+	PS_FN(ps_sub_##W, T, uatomic_sub(&ps_sub_##W##_g, PS_D), uatomic_sub(&l, PS_D)) \
+	PS_FN(ps_inc_##W, T, uatomic_inc(&ps_inc_##W##_g), uatomic_inc(&l)) \
+	PS_FN(ps_dec_##W, T, uatomic_dec(&ps_dec_##W##_g), uatomic_dec(&l)) \
+	PS_FN(ps_and_##W, T, uatomic_and(&ps_and_##W##_g, PS_D), uatomic_and(&l, PS_D)) \
+	PS_FN(ps_or_##W, T, uatomic_or(&ps_or_##W##_g, PS_D), uatomic_or(&l, PS_D))
+PS_ALL(unsigned char, 1) PS_ALL(unsigned short, 2) PS_ALL(unsigned int, 4) PS_ALL(unsigned long, 8)
+static void ps_one(FILE *lf, const char *op, int w, const char *sc, uint64_t res)
+{
+	fprintf(lf, "{\"k\":\"ps\",\"impl\":\"%s\",\"op\":\"%s\",\"w\":%d,\"sc\":\"%s\",", IMPL, op, w, sc);
+	jval(lf, "init", PS_INIT, w); fputc(',', lf); jval(lf, "d", PS_D, w); fputc(',', lf); jval(lf, "res", res, w); fputs("}\n", lf);
+}
+#define PS_RUN(W) \
+	ps_one(lf, "add", W, "static", ps_add_##W##_s()); ps_one(lf, "add", W, "auto", ps_add_##W##_l()); \
+	ps_one(lf, "sub", W, "static", ps_sub_##W##_s()); ps_one(lf, "sub", W, "auto", ps_sub_##W##_l()); \
+	ps_one(lf, "inc", W, "static", ps_inc_##W##_s()); ps_one(lf, "inc", W, "auto", ps_inc_##W##_l()); \
+	ps_one(lf, "dec", W, "static", ps_dec_##W##_s()); ps_one(lf, "dec", W, "auto", ps_dec_##W##_l()); \
+	ps_one(lf, "and", W, "static", ps_and_##W##_s()); ps_one(lf, "and", W, "auto", ps_and_##W##_l()); \
+	ps_one(lf, "or", W, "static", ps_or_##W##_s()); ps_one(lf, "or", W, "auto", ps_or_##W##_l());
+static void plain_store_then_op(FILE *lf) { PS_RUN(1) PS_RUN(2) PS_RUN(4) PS_RUN(8) }
+
 static int run_hammer(uint64_t seed, const char *lpath, int scale)
 {
 	FILE *lf = fopen(lpath, "w");
@@ -598,6 +630,7 @@ int main(int argc, char **argv)
 	if (argc >= 3 && !strcmp(argv[1], "cb")) {	/* compiler-barrier litmus (meaningful in an optimised build: -O2); appends to <log> */
 		FILE *lf = fopen(argv[2], "a"); if (!lf) die("cannot open log file");
 		for (int op = SB_XCHG; op < SB_NOPS; op++) cb_litmus(lf, op);
+		plain_store_then_op(lf);
 		fclose(lf); return 0;
 	}
 	fprintf(stderr, "usage: d_uatomic vec <vectors> <log> | hammer <seed> <log> [scale] | cb <log>\n");
